@@ -12,7 +12,7 @@ import (
 func init() {
 	register(&Property{
 		ID:          "C06",
-		Explanation: "Decides a structural necessary condition of 'TypeScript types are erased without runtime effect': type syntax is skipped as if it were whitespace, so the type-skipping code must have no effect on parser state other than advancing the lexer, and speculative (backtracking) parses must leave no residue. R1 skip-purity: over the static call closure of every (*parser).skipTypeScript* function and of the backtracking family, every store rooted at the parser is inside p.lexer, and no symbol/scope/import-record/usage/diagnostic side effect is reachable (reviewed exceptions listed with reasons); R2 backtrack-shape: each trySkip…WithBacktracking function snapshots p.lexer first, restores it in a deferred closure on LexerPanic (re-panicking anything else) and keeps the log-disabled flag consistent. R3 type-argument-followers: the per-token answer of tsCanFollowTypeArgumentsInExpression is extracted from SSA as a finite table (the function touches the token only through equality tests) and must be the constant true for `(`, no-substitution templates and template heads and the constant false for `<`, the `>` family, `+` and `-`, as in TypeScript's canFollowTypeArgumentsInExpression. The constant-folding clause for enums is shared with C03. R5 dirinfo-follows-path: after finalizeResolve rewrites a path to its real path, no directory-info value is used before a fresh lookup. R6 shared-ast-immutability: the C09/R2 frozen-AST analysis. R7 token-enum-vs-character: no value of js_lexer.T / css_lexer.T is compared with a character literal (module-wide, AST + types). R8 enum-inlining-order-independent: the C08/R1 map-order classification restricted to the loops that refer to the cross-module TSEnums tables. R9 ts-modifier-same-line: every recursive parseProperty call that depends on the TypeScript option and on the spelling of the preceding identifier also depends on Lexer.HasNewlineBefore. R10 tsconfig-setting-stored-under-its-own-key: each config.TSConfig field is stored in ParseTSConfigJSON under exactly one getProperty key. NOT covered: that typed and untyped programs print identically; enum/namespace/decorator semantics.",
+		Explanation: "Decides a structural necessary condition of 'TypeScript types are erased without runtime effect': type syntax is skipped as if it were whitespace, so the type-skipping code must have no effect on parser state other than advancing the lexer, and speculative (backtracking) parses must leave no residue. R1 skip-purity: over the static call closure of every (*parser).skipTypeScript* function and of the backtracking family, every store rooted at the parser is inside p.lexer, and no symbol/scope/import-record/usage/diagnostic side effect is reachable (reviewed exceptions listed with reasons); R2 backtrack-shape: each trySkip…WithBacktracking function snapshots p.lexer first, restores it in a deferred closure on LexerPanic (re-panicking anything else) and keeps the log-disabled flag consistent. R3 type-argument-followers: the per-token answer of tsCanFollowTypeArgumentsInExpression is extracted from SSA as a finite table (the function touches the token only through equality tests) and must be the constant true for `(`, no-substitution templates and template heads and the constant false for `<`, the `>` family, `+` and `-`, as in TypeScript's canFollowTypeArgumentsInExpression. The constant-folding clause for enums is shared with C03. R5 dirinfo-follows-path: after finalizeResolve rewrites a path to its real path, no directory-info value is used before a fresh lookup. R6 shared-ast-immutability: the C09/R2 frozen-AST analysis. R7 token-enum-vs-character: no value of js_lexer.T / css_lexer.T is compared with a character literal (module-wide, AST + types). R8 enum-inlining-order-independent: the C08/R1 map-order classification restricted to the loops that refer to the cross-module TSEnums tables. R9 ts-modifier-same-line: every recursive parseProperty call that depends on the TypeScript option and on the spelling of the preceding identifier also depends on Lexer.HasNewlineBefore. R10 tsconfig-setting-stored-under-its-own-key: each config.TSConfig field is stored in ParseTSConfigJSON under exactly one getProperty key. R11 enum-inlining-not-on-write-targets: the EDot/EIndex enum-inlining sites of printExpr are conditional on the expression flags (two known findings). NOT covered: that typed and untyped programs print identically; enum/namespace/decorator semantics.",
 		Run: func(p *Prog, tier string) []*RuleResult {
 			return []*RuleResult{c06SkipPurity(p), c06BacktrackShape(p), c06TypeArgFollowers(p), c06EnumDiscriminant(p), c06DirInfoFollowsPath(p), renamed(c09Frozen(p), "C06/R6 shared-ast-immutability", "enum members and constants of other files are inlined late (print time) into the importing file's nodes; the folded value may never be written back into the cached AST of the importer, or a rebuild after the enum changed prints the old member (same analysis as C09/R2)"), tokenVsCharacter(p, "C06/R7 token-enum-vs-character"), mapOrderRule(p, "C06/R8 enum-inlining-order-independent", "the loops over Go maps that decide which accesses of a cross-module TypeScript enum are inlined and which keep the enum object alive are independent of the iteration order (a decision that depends on which property the map happened to yield last inlines some members and drops the object the others still refer to; same analysis as C08/R1)", mentionsTSEnum, 1), c06TSModifierSameLine(p), c06TSConfigOwnKey(p), c06EnumInliningNotOnTargets(p)}
 		},
